@@ -143,11 +143,18 @@ def chk_result(inp):
     r.add_stats(stats)
     arrays = {"error_array": _nasty(rng, (inp["n"], ), inp["kind"]), "timestamps": 1.6e9 + np.cumsum(rng.random(inp["n"])),
               "alignment_transformation_sim3": _nasty(rng, (4, 4), "digits")}
+    if inp["seed"] % 2:
+        # names are arbitrary strings: dots, a common prefix before the first dot
+        arrays["error_array.trans"] = _nasty(rng, (inp["n"], ), inp["kind"])
+        arrays["error_array.rot.v2"] = _nasty(rng, (3, ), inp["kind"])
     for k, v in arrays.items():
         r.add_np_array(k, v)
     trajs = {}
     if inp["with_traj"]:
         trajs = {"traj_est": _traj(rng, inp["n"], inp["kind"]), "path_ref": _traj(rng, inp["n"], inp["kind"], stamps=False)}
+        if inp["seed"] % 2:
+            trajs["estimate.txt"] = _traj(rng, inp["n"], inp["kind"])
+            trajs["poses.v2"] = _traj(rng, inp["n"], inp["kind"], stamps=False)
         for k, v in trajs.items():
             r.add_trajectory(k, v)
     d = P.workdir("C06")
